@@ -60,6 +60,11 @@ EVENTS = ['read_x', 'read_y', 'read_r', 'read_t', 'crop', ['pad', 1], ['pad', [1
           ['mask', 'circle'], ['mask', 'half'], ['fill', 0.0], ['spike_clip', 1.5],
           'remove_piston', 'remove_tiptilt', 'remove_power', 'recenter', ['latcal', 2.0], 'strip_latcal',
           ['filter', 0.5]]
+# read-only queries ("reading between steps"): they may populate the lazy caches exactly like read_r / read_t do, and must
+# change nothing else -- data, validity, dx and every coordinate a user would read stay bit-for-bit what they were
+QUERIES = ['pvr', ['pvr_r', 0.8], 'psd', 'bandlimited_rms', ['tis', 0.6328], 'slope', 'str', 'slices']
+EVENTS = EVENTS + QUERIES
+QUERY_NAMES = tuple(q if isinstance(q, str) else q[0] for q in QUERIES)
 EXTRA_THOROUGH = [['pad0', 1]]      # pad(0.0, samples=1): a *valid* border
 # second-object dimension (unit ``forks``): ``fork`` takes other = ifg.copy() and goes on with the original,
 # ``fork_swap`` goes on with the copy and keeps the original as the frozen one; once per history, at any position
@@ -70,7 +75,7 @@ PRE_FORK = ['read_x', 'read_r', 'crop', ['mask', 'half'], ['pad', 1], 'recenter'
 # after the fork: every mutator of the alphabet (one pad variant) plus one read
 POST_FORK = ['crop', ['pad', 1], ['mask', 'circle'], ['mask', 'half'], ['fill', 0.0], ['spike_clip', 1.5],
              'remove_piston', 'remove_tiptilt', 'remove_power', 'recenter', ['latcal', 2.0], 'strip_latcal',
-             ['filter', 0.5], 'read_r']
+             ['filter', 0.5], 'read_r', 'pvr', ['pvr_r', 0.8], 'bandlimited_rms']
 
 
 def ev_name(ev):
@@ -275,6 +280,24 @@ def apply(st, ev, R):
         out = R.call(ifg.filter, arg / (2 * ifg.dx), 'lowpass', sig=sig)     # arg = fraction of Nyquist
     elif name in ('remove_piston', 'remove_tiptilt', 'remove_power', 'recenter', 'strip_latcal'):
         out = R.call(getattr(ifg, name), sig=sig)
+    elif name == 'pvr':
+        out = R.call(ifg.pvr, sig=sig)
+    elif name == 'pvr_r':
+        out = R.call(ifg.pvr, arg * (min(np.shape(ifg.data)) // 2) * ifg.dx, sig=sig)
+    elif name in ('psd', 'slope'):
+        out = R.call(getattr(ifg, name), sig=sig)
+    elif name == 'bandlimited_rms':
+        out = R.call(ifg.bandlimited_rms, flow=0.1 / ifg.dx, fhigh=0.45 / ifg.dx, sig=sig)
+    elif name == 'tis':
+        out = R.call(ifg.total_integrated_scatter, arg, sig=sig)
+    elif name == 'str':
+        out = R.call(str, ifg, sig=sig, hygiene=False)
+    elif name == 'slices':
+        out = R.call(ifg.slices, sig=sig)
+        if out is not FAILED:
+            for k in ('x', 'y'):
+                if R.call(getattr, out, k, sig=f'slices:{k}:exception', hygiene=False) is FAILED:
+                    out = FAILED
     else:
         raise ValueError(f'unknown event {ev!r}')
     if out is FAILED:
@@ -305,6 +328,21 @@ def make_events(tier, pre=None, post=None):
                 # an FFT of NaN-bearing data has no defined validity semantics; frequency needs a calibration
                 if np.isnan(data).any() or min(data.shape) < 4 or not ifg.dx > 0:
                     continue
+            if ev_name(ev) in ('psd', 'bandlimited_rms', 'tis'):
+                # spectral queries: defined for calibrated, fully valid data (same domain as filter)
+                if np.isnan(data).any() or min(data.shape) < 4 or not ifg.dx > 0:
+                    continue
+            if ev_name(ev) in ('pvr', 'pvr_r'):
+                # the Zernike fit needs a calibrated grid and some valid samples inside the normalisation radius; the default
+                # radius is documented for square data only
+                if not ifg.dx > 0 or min(data.shape) < 4 or int((~np.isnan(data)).sum()) < 4:
+                    continue
+                if ev_name(ev) == 'pvr' and data.shape[0] != data.shape[1]:
+                    continue
+            if ev_name(ev) in ('slope', 'slices') and min(data.shape) < 2:
+                continue
+            if ev_name(ev) == 'str' and not (~np.isnan(data)).any():
+                continue        # __str__ prints statistics, which are undefined without a valid sample (ASSUMPTIONS)
             out.append(ev)
         return out
     return events
@@ -429,6 +467,13 @@ def step_check(before, ev, st, R):
                 R.expect(ok, f'fork:copy:{what}', f'after copy() the {tag} object of {name}: {msg}')
         R.nontrivial()
         R.outcome(name)
+        return
+    if name in QUERY_NAMES:
+        # a query changes nothing a user can observe (it may populate the lazy caches with the values a read would give)
+        for what, ok, msg in differences(ifg, before):
+            R.expect(ok, f'query:{name}:{what}', f'the read-only query {name} changed the object: {msg}')
+        R.nontrivial()
+        R.outcome('query')
         return
     old = before['data']
     new = ifg.data
